@@ -12,15 +12,29 @@ from props import reader_common as rc
 MODULES = ['FeVerif.Props.C10']
 
 
-def read_filtered(path, types, tr, sources, max_bytes, flags, require_p1=False):
+def read_filtered(path, types, tr, sources, max_bytes, flags, require_p1=False, style=0):
+    """style: how the caller spells the same request (enum list / payload classes / single value; read_next loop / iteration)."""
     from fusion_engine_client.parsers import MixedLogReader
-    from fusion_engine_client.messages import MessageType
+    from fusion_engine_client.messages import MessageType, message_type_to_class
     kw = dict(zip(['return_header', 'return_payload', 'return_bytes', 'return_offset', 'return_message_index'], flags))
     try:
-        r = MixedLogReader(path, num_threads=1, time_range=tr, source_ids=sources, max_bytes=max_bytes,
-                           message_types=None if types is None else [MessageType(t, raise_on_unrecognized=False) for t in types], **kw)
+        mt = None
+        if types is not None:
+            enums = [MessageType(t, raise_on_unrecognized=False) for t in types]
+            classes = [message_type_to_class.get(e) for e in enums]
+            if style % 3 == 1 and all(c is not None for c in classes):
+                mt = classes if len(classes) != 1 else classes[0]
+            elif style % 3 == 2:
+                mt = tuple(enums) if len(enums) != 1 else enums[0]
+            else:
+                mt = set(enums)
+        if isinstance(sources, list) and len(sources) == 1 and style % 2 == 1:
+            sources = sources[0]
+        r = MixedLogReader(path, num_threads=1, time_range=tr, source_ids=sources, max_bytes=max_bytes, message_types=mt, **kw)
         out = []
-        while True:
+        if style % 2 == 1 and not require_p1:
+            out = [x for x in r]          # the iterator protocol
+        while not (style % 2 == 1 and not require_p1):
             try:
                 out.append(r.read_next(require_p1_time=require_p1))
             except StopIteration:
@@ -84,17 +98,23 @@ def one_case(ctx, data, path, msgs, lines, pending, flags=None, fixed=None):
                                ([msgs[len(msgs) // 2]['offset'] + msgs[len(msgs) // 2]['size']] if msgs else []))
     if flags is None:
         flags = tuple(rng.random() < 0.6 for _ in range(5))
-    res = read_filtered(path, types, tr, sources, max_bytes, flags)
+    require_p1 = False      # read_next(require_p1_time=...) is not one of the property's criteria (a NaN P1 time counts as present there)
+    style = (fixed or {}).get('style', rng.randrange(6))
+    res = read_filtered(path, types, tr, sources, max_bytes, flags, require_p1, style)
     rt = rc.range_text(tr)
     args = '%s %s %s %s %s' % (rc.log_text(msgs), '-' if types is None else ','.join(map(str, types)), rt,
                                '-' if sources is None else ','.join(map(str, sources)), 'n' if max_bytes is None else max_bytes)
-    lines.append('rdread ' + args + ' 0')
+    lines.append('rdread ' + args + (' 1' if require_p1 else ' 0'))
     lines.append('rdspec ' + args)
-    replay = {'file': data.hex(), 'types': types, 'time_range': trd, 'sources': sources, 'max_bytes': max_bytes, 'flags': list(flags)}
+    replay = {'file': data.hex(), 'types': types, 'time_range': trd, 'sources': sources, 'max_bytes': max_bytes, 'flags': list(flags),
+              'require_p1': require_p1, 'style': style}
     pending.append((replay, res, flags, msgs, data))
 
 
 def judge(ctx, replay, res, flags, msgs, data, model_out, spec_out):
+    if replay.get('require_p1') and spec_out not in ('IndexError', 'bad-args'):
+        # read_next(require_p1_time=True): additionally only messages carrying a valid P1 time
+        spec_out = ','.join(x for x in spec_out.split(',') if x and msgs[int(x)]['timeNs'] is not None)
     if res[0] == 'raise':
         kind = res[1].split(':')[0]
         if model_out != kind:
